@@ -126,6 +126,16 @@ def run(ctx, lean_ok):
         P = math.exp(r.uniform(math.log(1e5), math.log(5e7)))
         S = r.uniform(0., 36.)
         lam = 10 ** r.uniform(-6, 3)
+        # a third of the cases live at the absolute scale of real particles (total 1e-12..1e-6 kg, often with a trace
+        # component) and are scaled DOWN further: an absolute "numerically zero" threshold on a mass (e.g. machine epsilon
+        # used as a tolerance in kg) inside an intensive routine breaks scale invariance only there
+        if r.random() < 0.33:
+            m = m / m.sum() * 10 ** r.uniform(-12, -6)
+            if r.random() < 0.6:
+                m[r.randrange(n)] *= 10 ** r.uniform(-8, -3)
+            lam = 10 ** r.uniform(-9, -1)
+            ctx.count('scale:particle-sized-masses')
+        ctx.count('scale:smallest-scaled-mass:1e%d' % int(math.floor(math.log10(max(float(np.min(lam * m)), 1e-300)))))
         order = list(range(n))
         r.shuffle(order)
         extra = r.choice([c for c in mixgen.compounds(False) if c not in comp])
@@ -303,6 +313,8 @@ def run(ctx, lean_ok):
     ctx.oblige('coverage floor: at most 10 %% of the flashes time-boxed (%d of %d)' % (nslow, ncase), nslow <= 0.1 * ncase)
     npc = ctx.hist.get('particle:compared', 0)
     ctx.oblige('coverage floor: at least %d particle diameter/density comparisons (got %d)' % (ncase, npc), npc >= ncase)
+    nsm = sum(v for k, v in ctx.hist.items() if k.startswith('scale:smallest-scaled-mass:1e-') and int(k.split('1e-')[1]) >= 17)
+    ctx.oblige('coverage floor: at least 10 mixtures whose smallest scaled component mass is below 1e-16 kg (got %d)' % nsm, nsm >= 10)
     npp = ctx.hist.get('peneloux:partial', 0)
     ctx.oblige('coverage floor: at least 10 mixtures with user volume shifts for some compounds only (got %d)' % npp, npp >= 10)
     nzf = ctx.hist.get('zero-component:first', 0)
